@@ -247,12 +247,14 @@ def heldOf (shards : List XShard) (iid : Nat) : List (Nat × Int × Int) :=
   (holders shards iid).map fun s => (s.sid, s.endT, s.dur)
 
 /-- `ExpiredIndexes`: loaded builders by `Expired()` unless a shard that has not expired still
-works with the builder, then the not-loaded entries (`containIdxid` skips ids already reported) by
-`nilShardIsExpired`. -/
+works with the builder, then the not-loaded entries (`containIdxid` skips ids already reported, and
+an id the partition holds a builder for by now — created after the refresh — is left to the loop
+over the builders) by `nilShardIsExpired`. -/
 def expiredI (now : Int) (shards : List XShard) (idxs : List XIndex) (nm : List IInfo) : List IQ :=
   let l := (idxs.filter fun x => ixExpired now x.b && !heldLive now shards x.iid).map
     fun x => (⟨x.iid, x.igid, x.b.endTime, x.b.duration, x.fresh, now, false, heldOf shards x.iid⟩ : IQ)
-  l ++ (nm.filter fun i => !(l.any fun q => q.iid == i.iid) && nilShardIsExpired now i.dur i.endT).map
+  l ++ (nm.filter fun i => !(l.any fun q => q.iid == i.iid) && !(idxs.any fun x => x.iid == i.iid) &&
+      nilShardIsExpired now i.dur i.endT).map
     fun i => (⟨i.iid, i.igid, i.endT, i.dur, true, now, true, heldOf shards i.iid⟩ : IQ)
 
 /-- `ExpiredCacheIndexes` -/
